@@ -85,6 +85,31 @@ def open2(path, mode="r", *a, **kw):
 builtins.open = open2
 import io
 io.open = open2
+
+
+def _wrap_move(name):
+    real = getattr(os, name)
+
+    def move(src, dst, *a, **kw):
+        p = os.fspath(dst)
+        if isinstance(p, bytes):
+            p = p.decode("utf-8", "replace")
+        if ("/.gwf/" in p or os.path.basename(p).startswith(".gwfconf")) and "/.gwf/logs/" not in p:
+            count[0] += 1
+            if N and count[0] == N:
+                os._exit(137)  # killed just before the new file is moved into place
+            r = real(src, dst, *a, **kw)
+            count[0] += 1
+            if N and count[0] == N:
+                os._exit(137)  # killed right after the move, before anything else happens (flush, close)
+            return r
+        return real(src, dst, *a, **kw)
+
+    setattr(os, name, move)
+
+
+_wrap_move("replace")
+_wrap_move("rename")
 import atexit
 
 
@@ -119,7 +144,7 @@ def _case(draw, tier):
     else:
         fault["frac"] = draw(st.integers(0, 1000))  # position in [1..M] as a fraction
     return {"desc": desc, "backend": b, "hashing": draw(st.booleans()), "fault": fault,
-            "second_round": draw(st.booleans())}
+            "second_round": draw(st.booleans()), "earlier_purged": draw(st.sampled_from([False, False, True]))}
 
 
 def strategy(tier):
@@ -135,7 +160,7 @@ FIXED = {"targets": [{"name": "A", "inputs": ["s"], "outputs": ["a"], "spec": "e
 def enumerate_cases(tier):
     """Every write() of every state file of one fixed run, and every kill position between submissions."""
     combos = [("slurm", True)] if tier == "quick" else [("slurm", True), ("slurm", False), ("sge", True), ("lsf", True)]
-    top = 80 if tier == "quick" else 110
+    top = 90 if tier == "quick" else 120
     for b, hashing in combos:
         for n in range(1, top + 1):
             yield {"desc": FIXED, "backend": b, "hashing": hashing, "fault": {"type": "kill_write", "n": n},
@@ -147,6 +172,13 @@ def enumerate_cases(tier):
             for kind in ("exit1", "stderr-error", "garbage"):
                 yield {"desc": FIXED, "backend": b, "hashing": hashing, "fault": {"type": "cmdfail", "k": k, "kind": kind},
                        "second_round": False}
+    # an interruption in a project that already has history: jobs of an earlier invocation finished and were purged
+    for b in ("slurm", "sge", "lsf"):
+        for k in (1, 2):
+            yield {"desc": FIXED, "backend": b, "hashing": False, "fault": {"type": "cmdfail", "k": k, "kind": "exit1"},
+                   "second_round": True, "earlier_purged": True}
+            yield {"desc": FIXED, "backend": b, "hashing": False, "fault": {"type": "kill_between", "k": k},
+                   "second_round": True, "earlier_purged": True}
 
 
 def run_case(case):
@@ -168,6 +200,20 @@ def run_case(case):
             if r0.code != 0:
                 raise hist.HarnessError("setup run failed: " + r0.brief())
             labels.add("earlier-invocation")
+            if case.get("earlier_purged"):
+                # those jobs ran to completion long ago; the scheduler no longer knows them
+                for j in list(sim.submissions()):
+                    if j.state == simsched.PENDING and sim.deps_released(j):
+                        sim.start(j.id)
+                for _ in range(20):
+                    for j in sim.running():
+                        S.complete(j)
+                    for j in sim.startable():
+                        sim.start(j.id)
+                for j in sim.submissions():
+                    if j.ended:
+                        sim.age_out(j.id, queue=True, acct=True)
+                labels.add("earlier-jobs-purged")
         _, subs = S.plan()
         n_planned = len(subs)
         before = len(sim.submissions())
